@@ -356,5 +356,7 @@ func sweepC05(r *PRNG, k, S int) *Scenario {
 	c := &scn.Net.Conns[0].Cuts[0]
 	c.Offset = int64(off)
 	c.Style = cutStyles[k%6]
+	// only a plain timeout (a deadline that expired and was extended) is ever transient; see DESIGN 14.1
+	c.Transient = c.Style == fTimeout && k%12 < 6
 	return scn
 }
